@@ -488,7 +488,17 @@ class Interp:
             raise Unsupported(f"statement {type(st).__name__} at line {st.lineno}")
         if self.trace_hook is not None:
             self.trace_hook(st, env)
-        return m(st, env)
+        try:
+            return m(st, env)
+        except (_Return, _Break, _Continue, PathAbort, Unsupported):
+            raise
+        except Exception as e:
+            if not hasattr(e, 'pyvc_where'):
+                try:
+                    e.pyvc_where = f"{env.func.__qualname__ if env.func is not None else '?'}:{st.lineno}"
+                except Exception:
+                    pass
+            raise
 
     def x_Expr(self, st, env):
         v = st.value
@@ -657,7 +667,7 @@ class Interp:
     def x_While(self, st, env):
         inv = self._loop_invariant(st, env)
         if inv is not None:
-            return inv.run(self, st, env)
+            return self.run_invariant_loop(inv, st, env)
         n = 0
         broke = False
         while self.truth(self.eval(st.test, env)):
@@ -673,6 +683,38 @@ class Interp:
                 continue
         if not broke:
             self.exec_block(st.orelse, env)
+
+    def run_invariant_loop(self, inv, st, env):
+        """
+        Cut a loop with symbolic trip count by its inductive invariant (sidecar object `inv`):
+          establish:  every clause holds on entry                       -> obligations loop-inv-init:<clause>
+          preserve:   from an arbitrary state satisfying the invariant and the loop condition, one execution of
+                      the (real, interpreted) body re-establishes it     -> obligations loop-inv-preserved:<clause>
+          use:        execution continues after the loop from an arbitrary state satisfying invariant and
+                      negated condition.
+        Termination is NOT proved.  `break` inside such a loop is unsupported.
+        """
+        V = inv.V
+        for name, cond in inv.clauses(env.vars):
+            V.check(f"loop-inv-init:{name}", cond)
+        inv.havoc(V, env.vars)
+        for name, cond in inv.clauses(env.vars):
+            V.assume(cond)
+        if sym.ctx().choose():
+            if not self.truth(self.eval(st.test, env)):
+                raise PathAbort()
+            try:
+                self.exec_block(st.body, env)
+            except _Break:
+                raise Unsupported("break inside a loop cut by an invariant")
+            except _Continue:
+                pass
+            for name, cond in inv.clauses(env.vars):
+                V.check(f"loop-inv-preserved:{name}", cond)
+            raise PathAbort()          # end of the inductive-step path
+        if self.truth(self.eval(st.test, env)):
+            raise PathAbort()
+        self.exec_block(st.orelse, env)
 
     def _loop_invariant(self, st, env):
         if not self.loop_invariants or env.func is None:
